@@ -18,7 +18,7 @@ ASSUMPTIONS = ["lentil's physical constants differ from CODATA by < 1e-6 relativ
 EXHAUSTIVE = True
 PLAN = {'quick': {'gen': 4}, 'thorough': {'gen': 8, 'tests': 1, 'docs': 1}}
 REQUIRED_BUCKETS = ['wave-triple', 'flux-triple', 'spectrum.to:density', 'spectrum.to:unitless', 'spectrum.to:flux-roundtrip', 'spectrum.to:multi', 'spectrum.sample:unit', 'blackbody:converted',
-                    'planck:radiance', 'planck:exitance', 'planck:forms', 'wien', 'stefan-boltzmann', 'vega']
+                    'planck:radiance', 'planck:exitance', 'planck:forms', 'spectrum.to:refused-tail', 'same-numbers:mixed-units', 'wien', 'stefan-boltzmann', 'vega']
 REQUIRED_ANCHORS = ['anchor:Spectrum.to', 'anchor:planck_radiance', 'anchor:planck_exitance', 'anchor:vegaflux',
                     'anchor:Photlam.to', 'anchor:Micron.to']
 REQUIRED_ORACLES = ['wave:compose', 'wave:identity', 'wave:roundtrip', 'wave=si', 'flux:compose', 'flux:identity',
@@ -172,6 +172,76 @@ def workload(ctx, lentil):
         si1 = sm.flux_to_wlam_si(np.asarray(a.value, float) / sm.WAVE_M[a.waveunit], a.valueunit, wm1)
         ctx.close('flux=si', si1 / si0, np.ones(npts), 1e-6, 'to-multi|physical',
                   'a spectrum converted with Spectrum.to(u1, u2, ...) no longer describes the same physical flux', desc, scale=1.0)
+        # a call whose LAST unit is refused (unknown unit; a flux unit for a unitless curve): whatever was converted before the
+        # refusal is labelled accordingly - the spectrum still describes the same physical data and converts back to its values
+        if i % 2 == 0:
+            unitless = i % 4 == 0
+            vu2 = None if unitless else vu
+            c = R.Spectrum(wave.copy(), value.copy(), waveunit=u0, valueunit=vu2)
+            good = [u for u in seq if (u in sm.WAVE_CANON or not unitless)][:2] or ['um' if u0 != 'um' else 'nm']
+            bad = 'photlam' if unitless else 'jansky'
+            ctx.case({'spectrum.to-refused-tail': good + [bad], 'from': [u0, vu2]}, ['spectrum.to:refused-tail'])
+            try:
+                c.to(*good, bad)
+                ctx.skip('to: tail unit expected to be refused was accepted')
+            except Exception:
+                pass
+            try:
+                wm2 = np.asarray(c.wave, float) * sm.WAVE_M[c.waveunit]
+                okw = np.allclose(wm2, wm0, rtol=1e-12, atol=0)
+                if unitless:
+                    okv = c.valueunit is None and np.allclose(np.asarray(c.value, float), value, rtol=1e-12, atol=0)
+                else:
+                    si2 = sm.flux_to_wlam_si(np.asarray(c.value, float) / sm.WAVE_M[c.waveunit], c.valueunit, wm2)
+                    okv = np.allclose(si2 / si0, 1.0, rtol=1e-6, atol=0)
+                ctx.check(okw and okv, 'to:multi', 'to-multi|refused-tail|physical',
+                          'after a multi-unit conversion whose last unit was refused the spectrum (numbers + unit labels) no longer describes '
+                          'the same physical data', {'seq': good + [bad], 'from': [u0, vu2], 'now': [c.waveunit, c.valueunit]})
+                back = [u0] if unitless else [u0, vu]
+                c.to(*back)
+                ctx.check(np.allclose(np.asarray(c.wave, float), wave, rtol=1e-12, atol=0) and
+                          np.allclose(np.asarray(c.value, float), value, rtol=1e-10, atol=0), 'to:flux-roundtrip', 'to-multi|refused-tail|roundtrip',
+                          'converting back after a refused multi-unit call does not return the original values',
+                          {'seq': good + [bad], 'from': [u0, vu2]})
+            except Exception as e:
+                ctx.check(False, 'to:multi', f'to-multi|refused-tail|raises={type(e).__name__}', str(e), {'seq': good + [bad]})
+    # ---- operands tabulated on the same NUMBERS in different wavelength units (10..30 um and 10..30 nm): arithmetic converts the
+    # second operand like any other, i.e. a op b == a op (b expressed in a's unit first)
+    for i in range(max(6, n // 4)):
+        npts = int(rng.integers(3, 15))
+        ua, ub = [('um', 'nm'), ('nm', 'angstrom'), ('angstrom', 'nm'), ('nm', 'um')][i % 4]
+        if 'um' in (ua, ub):      # (numbers chosen so that the union grid at the finer sampling stays below ~1e5 points)
+            nums = np.cumsum(rng.uniform(0.05, 0.3, size=npts)) + rng.uniform(1, 2)
+        else:
+            nums = np.cumsum(rng.uniform(5, 30, size=npts)) + rng.uniform(300, 900)
+        va, vb = rng.uniform(0.1, 5, size=npts), rng.uniform(0.1, 5, size=npts)
+        vu = [None, 'photlam', 'wlam'][i % 3]
+        opn = ['add', 'multiply', 'subtract'][i % 3]
+        ctx.case({'same-numbers-other-unit': [ua, ub], 'op': opn, 'valueunit': vu, 'n': npts}, ['same-numbers:mixed-units'])
+        try:
+            A = R.Spectrum(nums.copy(), va.copy(), waveunit=ua, valueunit=vu)
+            B = R.Spectrum(nums.copy(), vb.copy(), waveunit=ub, valueunit=vu)
+            Bc = R.Spectrum(nums.copy(), vb.copy(), waveunit=ub, valueunit=vu)
+            Bc.to(ua)
+            r1 = getattr(A, opn)(B)
+            r2 = getattr(A, opn)(Bc)
+            same = r1.waveunit == r2.waveunit and len(r1.wave) == len(r2.wave) and \
+                np.allclose(r1.wave, r2.wave, rtol=1e-9, atol=0)
+            if same:
+                tie = np.zeros(len(r1.wave), bool)
+                for e_ in (A.wave[0], A.wave[-1], Bc.wave[0], Bc.wave[-1]):
+                    tie |= np.abs(np.asarray(r1.wave) - e_) <= 1e-9 * e_
+                v1, v2 = np.asarray(r1.value, float), np.asarray(r2.value, float)
+                sc_ = max(float(np.max(np.abs(v2))), 1e-300)
+                same = bool(np.all(np.isclose(v1, v2, rtol=1e-8, atol=1e-11 * sc_) | tie))
+            elif r1.waveunit == r2.waveunit and abs(len(r1.wave) - len(r2.wave)) == 1:
+                ctx.skip('same-numbers: step count at a ceil() tie')
+                continue
+            ctx.check(same, 'to:values', 'same-numbers|mixed-units',
+                      'operands that hold the same numbers in different wavelength units were combined without converting the second one',
+                      {'units': [ua, ub], 'op': opn, 'n': [len(r1.wave), len(r2.wave)]})
+        except Exception as e:
+            ctx.check(False, 'to:values', f'same-numbers|raises={type(e).__name__}', str(e), {'units': [ua, ub], 'op': opn})
     # ---- sampling / resampling a per-wavelength density in another wavelength unit == converting, then sampling -------------
     for i in range(n):
         npts = int(rng.integers(3, 20))
